@@ -1,3 +1,4 @@
+import os
 subs=[("idle","stepIdle",True),("begin","stepBegin",False),("commit","stepCommit",False),("abort","stepAbort",False),("after","stepAfter",True),("use","stepUse",False),("sess","stepSess",False),("close","stepClose",False),("exp","stepExp",False)]
 pcname={"idle":".idle","after":".after"}
 head='''/-
@@ -6,7 +7,7 @@ head='''/-
   in commit order, and every committed transaction ran on exactly the log produced by its
   predecessors.  (Per-sub-machine lemmas generated mechanically.)
 -/
-import Lungo.Proofs.ConcAll
+import Lungo.Proofs.ConcOwnDefs
 namespace Lungo.Conc
 
 /-- the log produced by a list of committed transactions -/
@@ -72,40 +73,29 @@ for name,fn,haspc in subs:
   conc_split hs
   all_goals (
     refine ⟨?_, fun b t => ?_, ?_, ?_⟩
-    · clear l2 i2 b2
-      (try log_simp); grind
-    · have := l2 b t; have := i2 b; have := b2 b t
+    · first
+      | exact l1
+      | (clear l2 i2 b2
+         (try log_simp); grind)
+    · have hl2b := l2 b t; have := i2 b; have := b2 b t
       clear l2 i2 b2
       by_cases hba : b = a
       · subst hba; (try log_simp); grind
       · have hab : ¬ a = b := fun h => hba h.symm
         try simp only [State.put, State.putS, State.finish, State.write, upd_apply, if_neg hba, if_neg hab]
-        (try log_simp); grind
-    · clear l2 i2 b2
-      (try log_simp); grind
-    · clear l2 i2 b2
-      (try log_simp); grind)'''
+        first
+        | exact hl2b
+        | ((try log_simp); grind)
+    · first
+      | exact l3
+      | (clear l2 i2 b2
+         (try log_simp); grind)
+    · first
+      | exact l4
+      | (clear l2 i2 b2
+         (try log_simp); grind))'''
     out+=thm("linv",name,fn,haspc,"(inv1 : Inv1 s) (bnd : Bnd s) (g : Linv s)","Linv s'",body)
 out+='''
-theorem linv_step {s s' : State} {a : ActorId} {c : Choice} (h1 : Inv1 s) (h2 : Inv2 s) (g : Linv s)
-    (hs : step s a c = some s') : Linv s' := by
-  have bd := h2.bnd
-  rcases step_cases hs with ⟨hp, h'⟩ | h' | h' | h' | ⟨hp, h'⟩ | h' | h' | h' | h'
-  · exact linv_idle h1 bd g hp h'
-  · exact linv_begin h1 bd g h'
-  · exact linv_commit h1 bd g h'
-  · exact linv_abort h1 bd g h'
-  · exact linv_after h1 bd g hp h'
-  · exact linv_use h1 bd g h'
-  · exact linv_sess h1 bd g h'
-  · exact linv_close h1 bd g h'
-  · exact linv_exp h1 bd g h'
-
-theorem linv_reachable {n : Nat} {s : State} (h : Reachable n s) : Linv s := by
-  induction h with
-  | init => exact linv_init n
-  | step hr hs ih => exact linv_step (inv_reachable hr).1 (inv_reachable hr).2 ih hs
-
 end Lungo.Conc
 '''
-open('/root/wt/a4/lean/Lungo/Proofs/ConcLog.lean','w').write(out)
+open(os.path.join(os.path.dirname(os.path.abspath(__file__)),'..','Lungo','Proofs')+'/ConcLog.lean','w').write(out)
